@@ -10,6 +10,10 @@ while True:
 ```
 One model step is one atomic block: `attempt i` = one iteration of the loop body by task `i` at the current time (its
 first one when it calls `__aenter__`, a later one when its `asyncio.sleep` ends), `tick dt` = the clock moves on.
+An admitted task is inside the `async with` body until it leaves it: `exit i` (normally), `fail i` (by an exception) or
+`cancel i` (a `CancelledError` delivered inside the body) — all three run `__aexit__`, which is `pass`: an admission
+counts whatever happens to the body afterwards.  `cancel i` of a task that sleeps inside `__aenter__` makes the
+`CancelledError` leave `asyncio.sleep` and `__aenter__` (no `__aexit__`): the task just stops waiting.
 Times are integers (the correspondence quantises real times to multiples of 2⁻¹⁰ s, so the float subtractions of the
 code are exact).  The clock is assumed monotone (`tick` takes a natural number).
 -/
@@ -31,11 +35,16 @@ structure State where
   sleepers : List (Nat × Int × Int)
   /-- every admission time so far, in order of admission (the trace the property talks about; never read by `step`) -/
   log : List Int
+  /-- admitted tasks that are still inside the `async with` body -/
+  inBody : List Nat
   deriving DecidableEq, Repr
 
 inductive Op where
   | tick (dt : Nat)
   | attempt (i : Nat)
+  | exit (i : Nat)
+  | fail (i : Nat)
+  | cancel (i : Nat)
   deriving DecidableEq, Repr
 
 inductive Err where
@@ -43,11 +52,13 @@ inductive Err where
   | indexError
   /-- not a behaviour: `asyncio.sleep` does not return before its delay has passed -/
   | notDue
+  /-- not a behaviour: the task is not in the phase the op needs (e.g. leaving a body it is not in, entering twice) -/
+  | protocol
   deriving DecidableEq, Repr
 
 deriving instance DecidableEq for Except
 
-def init (t0 : Int) : State := ⟨t0, [], [], []⟩
+def init (t0 : Int) : State := ⟨t0, [], [], [], []⟩
 
 /-- the eviction loop: pop from the left while the head is `≤ now - window` -/
 def evict (c : Cfg) (now : Int) (items : List Int) : List Int :=
@@ -61,19 +72,31 @@ def body (c : Cfg) (s : State) (i : Nat) : Except Err State :=
   let items := evict c s.now s.items
   let sl := removeSleeper i s.sleepers
   if items.length < c.count then                         -- `if len(self._items) < self._count:`
-    .ok { s with items := items ++ [s.now], sleepers := sl, log := s.log ++ [s.now] }
+    .ok { s with items := items ++ [s.now], sleepers := sl, log := s.log ++ [s.now], inBody := s.inBody ++ [i] }
   else
     match items with
     | [] => .error .indexError                           -- `self._items[0]`
     | h :: _ => .ok { s with items := items, sleepers := sl ++ [(i, s.now, h + c.window)] }
                                                          -- sleep `h - (now - window)`: until `h + window`
 
+/-- task `i` leaves the `async with` body: `__aexit__` is `pass`, whatever the reason -/
+def leave (s : State) (i : Nat) : Except Err State :=
+  if s.inBody.contains i then .ok { s with inBody := s.inBody.filter fun j => j != i } else .error .protocol
+
 def step (c : Cfg) (s : State) : Op → Except Err State
   | .tick dt => .ok { s with now := s.now + dt }
   | .attempt i =>
+    if s.inBody.contains i then .error .protocol else
     match wakeOf i s.sleepers with
     | some wk => if s.now < wk then .error .notDue else body c s i
     | none => body c s i
+  | .exit i => leave s i
+  | .fail i => leave s i
+  | .cancel i =>
+    if s.inBody.contains i then leave s i                                   -- CancelledError inside the body: `__aexit__`
+    else if (wakeOf i s.sleepers).isSome then
+      .ok { s with sleepers := removeSleeper i s.sleepers }                 -- CancelledError inside `asyncio.sleep` of `__aenter__`
+    else .error .protocol
 
 def run (c : Cfg) : State → List Op → Except Err State
   | s, [] => .ok s
